@@ -267,17 +267,66 @@ class LabelAccess(BoundedCheck):
     """C10: label-based get/set over every span type, every label, every (start, stop, step) triple, absent labels."""
     name = 'c10.label-access'
     props = ('C10', 'C05')
-    bound_quick = 'spans of length 4 of 10 types (ranges with non-zero origin, strings, mixed hashables incl. falsy labels, NumPy int/str, pandas Index / annual and quarterly PeriodIndex / DatetimeIndex); every label, every (start, stop, step) with step in {None,1,2,3} incl. open ends, absent labels; get and set; solve_period / solve(start=) per span type'
+    bound_quick = 'spans of length 4 of 10 types (ranges with non-zero origin, strings, mixed hashables incl. falsy labels, NumPy int/str, pandas Index / annual and quarterly PeriodIndex / DatetimeIndex); every label, every (start, stop, step) with step in {None,1,2,3} incl. open ends, absent labels; get and set; solve_period / solve(start=) per span type; year labels as slice bounds on a quarterly PeriodIndex of 8 periods (every pair of bounds, steps None/1/2/3)'
     bound_thorough = 'spans of length 1..6'
-    required_covers = ('single', 'slice', 'open-end', 'absent', 'falsy-label', 'empty-slice')
+    required_covers = ('single', 'slice', 'open-end', 'absent', 'falsy-label', 'empty-slice', 'coarse-label-slice')
 
     def cases(self, tier, seed):
         for n in ([1, 2, 3, 4, 5, 6] if tier == 'thorough' else [4]):
             for sname in span_catalogue(n):
                 yield {'span': sname, 'n': n}
+        yield {'span': 'coarse-labels-on-a-quarterly-PeriodIndex', 'n': 8}
+
+    def check_coarse(self, case, res: BoundedResult):
+        """A label coarser than the span's frequency (a year on a quarterly PeriodIndex) names a run of periods: as the lower bound of a slice it
+        stands for the first of them, as the upper bound for the last (inclusive), also when both bounds are the same label."""
+        import fsic
+        import pandas as pd
+        out = []
+        n = case['n']
+        span = pd.period_range('2000Q2', periods=n, freq='Q')
+        res.nontrivial.add(repr(case))
+
+        def fresh():
+            c = fsic.core.VectorContainer(span)
+            c.add_variable('X', [float(10 + i) for i in range(n)])
+            return c
+        c = fresh()
+        years = sorted({p_.year for p_ in span})
+        first = {str(y): min(i for i, p_ in enumerate(span) if p_.year == y) for y in years}
+        last = {str(y): max(i for i, p_ in enumerate(span) if p_.year == y) for y in years}
+        bounds = [None] + [str(y) for y in years] + [str(span[2])]
+        for a, b, step in itertools.product(bounds, bounds, (None, 1, 2, 3)):
+            pa = 0 if a is None else first.get(a, 2)
+            pb = n - 1 if b is None else last.get(b, 2)
+            want_pos = list(range(pa, pb + 1, step or 1))
+            res.cover('coarse-label-slice')
+            res.nontrivial.add((case['span'], 'slice', a, b, step))
+            res.evaluations += 2
+            sl = slice(a, b, step)
+            try:
+                got = [float(x) for x in c['X', sl]]
+            except Exception as ex:  # noqa: BLE001
+                got = repr(ex)[:80]
+            if got != [float(10 + j) for j in want_pos]:
+                out.append(Violation('obj[name, a:b:s] addresses positions pos(a) through pos(b) inclusive (a coarser label: first period of a, last period of b)',
+                                     'c10.get-slice:coarse', dict(case, detail=str((a, b, step))), [10 + j for j in want_pos], got, 'label_slice'))
+            d = fresh()
+            try:
+                d['X', sl] = -2.0
+                got = d.X.tolist()
+            except Exception as ex:  # noqa: BLE001
+                got = repr(ex)[:80]
+            want = [-2.0 if j in want_pos else float(10 + j) for j in range(n)]
+            if got != want:
+                out.append(Violation('obj[name, a:b:s] = v addresses positions pos(a) through pos(b) inclusive (a coarser label: first period of a, last period of b)',
+                                     'c10.set-slice:coarse', dict(case, detail=str((a, b, step))), want, got, 'label_slice'))
+        return out
 
     def check(self, case, res: BoundedResult):
         import fsic
+        if case['span'] == 'coarse-labels-on-a-quarterly-PeriodIndex':
+            return self.check_coarse(case, res)
         out = []
         n = case['n']
         span = span_catalogue(n)[case['span']]
